@@ -1,6 +1,7 @@
 // tbfsim worker / replayer.
 //   tbfsim --prop C03 --tier quick --base <seed> --stripe <i> --of <n> --count <m>     batch of seeds (line protocol below)
 //   tbfsim --replay <file.json>                                                         one explicit scenario
+//   tbfsim --prop P --tier T --base B --indices i,j,k                                  these batch indices, in this order, in one process
 //   tbfsim --emit --prop C03 --seed <s> --sub <k>                                       print the explicit scenario of (seed, sub)
 // Line protocol on stdout: START <seed> | STAGE <seed> <sub> <stage> | RESULT <json> | DONE <seed> | CRASH <seed> <sub> <stage> <what>
 #include "recipes.hpp"
@@ -179,6 +180,7 @@ int main(int argc, char** argv) {
     long stripe = 0, of = 1, count = 1, from = 0;
     int sub = -1;
     bool emit = false, haveSeed = false, listWorlds = false;
+    std::string indicesArg;   // explicit batch indices, run in this order in this one process (replay of a process history)
     for (int i = 1; i < argc; ++i) {
         std::string a = argv[i];
         auto next = [&]() -> std::string { return (i + 1 < argc) ? std::string(argv[++i]) : std::string(); };
@@ -189,6 +191,7 @@ int main(int argc, char** argv) {
         else if (a == "--of") of = std::atol(next().c_str());
         else if (a == "--count") count = std::atol(next().c_str());
         else if (a == "--from") from = std::atol(next().c_str());
+        else if (a == "--indices") indicesArg = next();
         else if (a == "--replay") replay = next();
         else if (a == "--emit") emit = true;
         else if (a == "--seed") { seed = std::strtoull(next().c_str(), nullptr, 10); haveSeed = true; }
@@ -231,8 +234,15 @@ int main(int argc, char** argv) {
         return rc;
     }
     const int K = schedulesPer(prop, tier);
-    for (long n = from; n < count; ++n) {
-        if (n % of != stripe) continue;
+    std::vector<long> order;
+    if (!indicesArg.empty()) {
+        std::stringstream ss(indicesArg);
+        std::string tok;
+        while (std::getline(ss, tok, ',')) if (!tok.empty()) order.push_back(std::atol(tok.c_str()));
+    } else {
+        for (long n = from; n < count; ++n) if (n % of == stripe) order.push_back(n);
+    }
+    for (long n : order) {
         uint64_t s = deriveSeed(base, uint64_t(n));
         // every batch contains the two scale scenarios (seed residues 1 and 2 modulo 4096, see gen.cpp); no other index is forced onto them
         if (n == 0 || n == 1) s = (s & ~uint64_t(4095)) | uint64_t(n + 1);
